@@ -161,6 +161,56 @@ def run_history(ctx, seed):
                 world.advance_to(world.now + dt)
 
         forced_shutdown = [None]
+        if rng.random() < (0.3 if proto < 3 else 0.12):
+            # saturation prelude: fill every connection of a pool exactly to its capacity with requests the node keeps back (the pool may grow meanwhile),
+            # then borrowers that have to wait: some give up while the pool is still full, some are woken by a stream that really was freed
+            ps = pw.pools()
+            if ps:
+                p = ps[0]
+                filled, misses = 0, 0
+                while misses < 3 and filled < 80:
+                    u = new_uid()
+                    kinds[u] = 'direct-hold'
+                    if pw.direct_request(p, u, 'hold', timeout=0.0) is None:
+                        misses += 1
+                        world.settle(advance=False)          # a connection the pool decided to open may add capacity
+                    else:
+                        filled += 1
+                        misses = 0
+                steps_log.append(('saturated', filled, [(c.sim_id, c.in_flight, c.max_request_id) for c in pw.live_pool_conns()]))
+                info['saturated'] = filled
+                for _ in range(rng.randint(1, 5)):
+                    r = rng.random()
+                    if r < 0.35:
+                        u = new_uid()
+                        kinds[u] = 'direct-rows'
+                        steps_log.append(('waiting-borrow', u))
+                        pw.direct_request(p, u, 'rows', timeout=rng.choice([0.05, 0.3]))
+                    elif r < 0.55:
+                        u = new_uid()
+                        kinds[u] = 'rows'
+                        plan.set(u, 'rows')
+                        steps_log.append(('send', u, 'rows'))
+                        rec.execute_async(session, u, timeout=30.0)            # Session path: borrow_connection(timeout=2.0)
+                    elif r < 0.8:
+                        # free a stream first (the answer is on its way), then wait: this borrower must be served
+                        cand = [h for h in pw.open_held() if kinds.get(pw.uid_of_held(h)) == 'direct-hold']
+                        if cand:
+                            rng.choice(cand).release()
+                        u = new_uid()
+                        kinds[u] = 'direct-rows'
+                        steps_log.append(('release-then-waiting-borrow', u))
+                        pw.direct_request(p, u, 'rows', timeout=0.3)
+                    else:
+                        for _ in range(rng.randint(1, 3)):
+                            u = new_uid()
+                            kinds[u] = 'direct-rows'
+                            world.spawn(lambda u=u, p=p: pw.direct_request(p, u, 'rows', timeout=0.3), name='waiter-%d' % u)
+                        cand = [h for h in pw.open_held() if kinds.get(pw.uid_of_held(h)) == 'direct-hold']
+                        if cand and rng.random() < 0.6:
+                            rng.choice(cand).release()
+                        steps_log.append(('waiter-threads',))
+                        world.settle(advance=False)
         if proto >= 3 and rng.random() < 0.4:
             # overload prelude: enough timed-out streams to cross the orphan threshold while other requests stay pending, then more
             # requests (a burst: several borrows race the replacement) make the pool replace the connection: the old one goes to _trash
@@ -315,8 +365,12 @@ def run_history(ctx, seed):
                                      'conn %d in_flight went down to %d: _execute_after_prepare returned it although the PREPARE had borrowed another connection' % (c.sim_id, mm[0])))
                     else:
                         viol.append(('in-flight-negative', 'conn %d (%s) in_flight went down to %d under its lock' % (c.sim_id, c.sim_creator, mm[0])))
-                if mm[1] > c.max_request_id + 1:
-                    viol.append(('in-flight-above-capacity', 'conn %d in_flight went up to %d, capacity %d' % (c.sim_id, mm[1], c.max_request_id + 1)))
+                # a pool reserves a stream only while in_flight < max_request_id; only Connection.wait_for_responses (handshake / control connection) may use
+                # the last id
+                cap = c.max_request_id if c.sim_creator in POOL_CREATORS else c.max_request_id + 1
+                if mm[1] > cap:
+                    viol.append(('in-flight-above-capacity', 'conn %d (%s) in_flight went up to %d under its lock, capacity %d (max_request_id %d)' % (
+                        c.sim_id, c.sim_creator, mm[1], cap, c.max_request_id)))
 
             # ---------------- oracle 3: conservation at quiescence on open connections whose requests were all answered
             outstanding = {}
